@@ -17,6 +17,7 @@ void Interpolation::applyExtrapolatedRestriction0(const Level& fromLevel, const 
 
 #pragma omp parallel for
     for (int index = 0; index < coarseGrid.numberOfNodes(); index++) {
+        VERIF_ITER(index);
         MultiIndex coarse_node = coarseGrid.multiIndex(index);
         MultiIndex fine_node(2 * coarse_node[0], 2 * coarse_node[1]);
 
@@ -87,6 +88,7 @@ void Interpolation::applyExtrapolatedRestriction(const Level& fromLevel, const L
 /* For loop matches circular access pattern */
 #pragma omp for nowait
         for (int i_r_coarse = 0; i_r_coarse < coarseNumberSmootherCircles; i_r_coarse++) {
+            VERIF_ITER(i_r_coarse);
             int i_r = i_r_coarse * 2;
             for (int i_theta_coarse = 0; i_theta_coarse < coarseGrid.ntheta(); i_theta_coarse++) {
                 int i_theta = i_theta_coarse * 2;
@@ -130,6 +132,7 @@ void Interpolation::applyExtrapolatedRestriction(const Level& fromLevel, const L
 /* For loop matches circular access pattern */
 #pragma omp for nowait
         for (int i_theta_coarse = 0; i_theta_coarse < coarseGrid.ntheta(); i_theta_coarse++) {
+            VERIF_ITER(i_theta_coarse);
             int i_theta = i_theta_coarse * 2;
             for (int i_r_coarse = coarseNumberSmootherCircles; i_r_coarse < coarseGrid.nr(); i_r_coarse++) {
                 int i_r = i_r_coarse * 2;
